@@ -313,6 +313,14 @@ class OTranslator(B.BTranslator):
             if is_opt(t):
                 return None
             if t in ("str", "none"):
+                # a str / None against a class: False for the classes whose instances the subset knows (int, bool, bytes,
+                # bitarray, classes and Enums of the unit); anything else (`object`, a tuple of classes, …) is refused
+                known = isinstance(c, ast.Name) and self.glob("isinstance") is None and (
+                    (c.id in ("int", "bool", "bytes") and self.glob(c.id) is None)
+                    or (c.id == "bitarray" and self.is_real("bitarray", "bitarray", "bitarray"))
+                    or self.f.class_type(self.glob(c.id)) is not None)
+                if not known:
+                    self.f.bad(n, f"isinstance of a {t} with `{self.f.seg(c)}`")
                 return False
         if isinstance(n, ast.BoolOp):
             is_or = isinstance(n.op, ast.Or)
@@ -777,7 +785,7 @@ class OTranslator(B.BTranslator):
             # assigns it again)
             env = dict(env)
             env[name] = e.typ
-            lean = f"{mangle(name)}_{len(self.rename) + 1}"
+            lean = f"{mangle(name)}_r{len(self.rename) + 1}"
             self.rename[name] = lean
             arrow = "←" if e.monadic else ":="
             return [f"  let {lean} : {lean_type(e.typ)} {arrow} {e.text}"], env
@@ -954,7 +962,18 @@ class ObjUnit(B.BitsUnit):
         e = self.externals.get(key)
         if e is None or e["qual"].startswith("builtins:"):
             return None
-        return super().external(f, key, live)
+        r = super().external(f, key, live)
+        if r is not None and e.get("consts"):
+            # a parameter of the external that is fixed to one value: where the plug-in says calls may leave it out, the live
+            # default must be that value
+            sig = inspect.signature(getattr(live, "__func__", live))
+            for nm, want in e["consts"].items():
+                if e.get("const_defaults", {}).get(nm, False):
+                    par = sig.parameters.get(nm)
+                    if par is None or par.default is inspect.Parameter.empty or type(par.default) is not type(want) \
+                            or par.default != want:
+                        raise Untranslatable(f"{f.file}: the default of `{nm}` of `{key}` is not {want!r}")
+        return r
 
     def pyclass(self, t):
         if t[0] == "obj":
